@@ -87,6 +87,8 @@ inductive Src
   | promiseFn (e : Exec) (p : Nat) (f : Ful)   -- AsyncContract(e, fn)     / lazy: LazyContract(e, fn) (PromiseCore)
   | sharedReady (r : R)                        -- MakeSharedContract(), Set at once, the SharedFuture returned
   | sharedContract (p : Nat) (f : Ful)         -- MakeSharedContract(), the SharedFuture returned
+  | sharedKept (p : Nat) (f : Ful) (pre : Bool) -- a COPY of a SharedFuture handle the client keeps (and observes again later);
+                                               -- its promise p is used as f says; pre: fulfilled before the pipeline was built
 deriving DecidableEq, Repr
 
 mutual
@@ -194,6 +196,7 @@ structure G where
   cFree : Nat := 0
   fAlloc : Nat := 0                -- functors stored in cores
   fFree : Nat := 0
+  setPs : List Nat := []           -- promises the client has used so far (a kept SharedFuture is ready iff its promise is here)
 deriving DecidableEq, Repr
 
 def G.allocCore (g : G) (n : Nat := 1) : G := { g with cAlloc := g.cAlloc + n }
@@ -203,6 +206,9 @@ def G.freeFunctor (g : G) : G := { g with fFree := g.fFree + 1 }
 def G.invoke (g : G) (id : Nat) (ctx : Option Nat) (via : Option Exec) : G :=
   { g with invoked := g.invoked ++ [id], ran := g.ran ++ [⟨id, ctx, via⟩] }
 def G.finishJob (g : G) (jid : Nat) (called : Bool) : G := { g with jobs := g.jobs ++ [(jid, called)] }
+def G.markSet (g : G) (p : Nat) : G := { g with setPs := p :: g.setPs }
+/-- is the kept SharedFuture with promise p ready? -/
+def G.isSet (g : G) (p : Nat) (pre : Bool) : Bool := pre || g.setPs.contains p
 
 def subCount (subs : List Nat) (k : Nat) : Nat := subs.count k
 
@@ -309,6 +315,9 @@ def startSrc (cfg : Cfg) (src : Src) (ctx : Option Nat) (g : G) : Started :=
     | .queued jid k g' => .wait (.job jid k (.promiseHead p f)) e g'
   | .sharedReady r => .go r .inl ctx g
   | .sharedContract p f => .wait (.promise p f) .inl g
+  | .sharedKept p f pre =>
+    -- the copy of the kept handle counts as the source "core" of the ghost accounting: one reference, released by its consumer
+    if g.isSet p pre then .go f.result .inl ctx g else .wait (.promise p f) .inl g
 
 /-- detail::Start(head[, e]): the head of a Task is submitted to its executor (`ovr`: ToFuture(e) / Detach(e) / Cancel) -/
 def startLazy (cfg : Cfg) (src : Src) (ovr : Option Exec) (ctx : Option Nat) (g : G) : Started :=
@@ -530,9 +539,13 @@ def mech (cfg : Cfg) (st : State) (ev : Event) : State :=
     if s.mode.isDetach then st else     -- Task has no Detach(f)
     { st with ctl := .task src (steps ++ [s]), g := st.g.allocCore.allocFunctor }
   | .set p, .pending t =>
+    let st := { st with g := st.g.markSet p }
     (match t.wait with
      | .promise q _ => if p = q then settle st (resume cfg t none st.g) else st
      | _ => st)
+  | .set p, .future _ _ => { st with g := st.g.markSet p }
+  | .set p, .task _ _ => { st with g := st.g.markSet p }
+  | .set p, .gone => { st with g := st.g.markSet p }
   | .call k, .pending t =>
     (match t.wait with
      | .job _ k' _ => if k = k' then settle st (resume cfg t (some k) st.g) else st
@@ -608,6 +621,7 @@ def specSrc (cfg : Cfg) (src : Src) (ovr : Option Exec) (lazy : Bool) (subs : Li
     (r', e, subs')
   | .sharedReady r => (r, .inl, subs)
   | .sharedContract _ f => (f.result, .inl, subs)
+  | .sharedKept _ f _ => (f.result, .inl, subs)
 
 mutual
   /-- the functor of a step is offered `input` (its own input, or StopError if its executor refused it) -/
